@@ -548,6 +548,61 @@ def dominating_conditions(prov, fn, node):
     return out
 
 
+def inherited_conditions(prov, fn, node):
+    """dominating_conditions plus what a test on a *merged* value implies: when the path to `node` takes the `V` edge of a
+    switch on a local that gets its value at several places (a spliced helper's `return None` / `Some(x)`, a desugared
+    combinator), and exactly one of those places makes a `V`, the conditions under which that place runs hold as well
+    (applied repeatedly: `helper(..).map(f).ok_or_else(g)` is two such merges in a row)"""
+    out = list(dominating_conditions(prov, fn, node))
+    seen_edges = set()
+    todo = [e for e, c in out if isinstance(e, tuple) and e[0] == "e"]
+    while todo:
+        e = todo.pop()
+        if e in seen_edges:
+            continue
+        seen_edges.add(e)
+        _, sb, idx = e
+        t = fn.blocks[sb]["term"]
+        if t["k"] != "switch" or "discr_of" not in t or idx == "o" or t["discr_of"]["p"]:
+            continue
+        variant = t["targets"][idx][2]
+        loc = t["discr_of"]["l"]
+        # `x.map(f)` / `x.ok_or_else(g)` / `r.ok()` with a function passed by path stay calls: the tested value is V exactly when
+        # the receiver is the corresponding variant
+        BACK = {"std::option::Option::map": {"Some": "Some", "None": "None"}, "std::result::Result::map": {"Ok": "Ok", "Err": "Err"},
+                "std::result::Result::map_err": {"Ok": "Ok", "Err": "Err"}, "std::option::Option::ok_or": {"Ok": "Some", "Err": "None"},
+                "std::option::Option::ok_or_else": {"Ok": "Some", "Err": "None"}, "std::result::Result::ok": {"Some": "Ok", "None": "Err"},
+                "std::result::Result::err": {"Some": "Err", "None": "Ok"}}
+        for _ in range(8):
+            ds = [d for d in prov.defs(fn).get(loc, []) if d[0] != "setdiscr"]
+            if len(ds) == 1 and ds[0][0] == "call" and ds[0][3]["callee"]["key"] in BACK and variant in BACK[ds[0][3]["callee"]["key"]] and ds[0][3]["args"]:
+                a0 = ds[0][3]["args"][0]
+                if a0.get("k") in ("copy", "move") and not a0["place"]["p"]:
+                    variant = BACK[ds[0][3]["callee"]["key"]][variant]
+                    loc = a0["place"]["l"]
+                    continue
+            if len(ds) == 1 and ds[0][0] == "assign" and not ds[0][3]["dst"]["p"] and ds[0][3]["rv"]["k"] == "use" and \
+                    ds[0][3]["rv"]["op"].get("k") in ("copy", "move") and not ds[0][3]["rv"]["op"]["place"]["p"]:
+                loc = ds[0][3]["rv"]["op"]["place"]["l"]        # (a plain move)
+                continue
+            break
+        cases = value_cases(prov, fn, loc)
+        makers = []
+        for v, cs, site in cases:
+            o = peel(v)
+            alts_ = [peel(x) for x in alts(o)]
+            if any(a[0] == "agg" and a[1].rsplit("::", 1)[-1] == variant for a in alts_):
+                makers.append((v, cs, site))
+        if len(makers) == 1 and len(cases) > 1:
+            for e2, c2 in makers[0][1]:
+                if (e2, c2) not in out:
+                    out.append((e2, c2))
+                    out.extend((e2, c3) for c3 in _equivalent_conditions(c2))
+                if isinstance(e2, tuple) and e2[0] == "e":
+                    todo.append(e2)
+    return out
+
+
 _VARIANT_PRED = {"Some": ("is_some", True), "None": ("is_some", False), "Ok": ("is_ok", True), "Err": ("is_ok", False)}
 
 
